@@ -103,7 +103,8 @@ def main():
             shutil.rmtree(d, ignore_errors=True)
             continue
         env = dict(os.environ, PYTHONPATH=d, VERIF_REPO=d + "/", PYTHONHASHSEED="0")
-        rc, out = sh("cd %s && /venv/bin/python -m pytest -q -p no:cacheprovider --timeout=900 --continue-on-collection-errors gffutils 2>&1 | tail -1" % d, env)
+        os.makedirs(os.path.join(d, "pytmp"), exist_ok=True)  # the suite leaves temp files behind: keep them in the scratch copy
+        rc, out = sh("cd %s && /venv/bin/python -m pytest -q -p no:cacheprovider --timeout=900 --continue-on-collection-errors gffutils 2>&1 | tail -1" % d, dict(env, TMPDIR=os.path.join(d, "pytmp")))
         tests = out.strip().splitlines()[-1] if out.strip() else "?"
         res = {}
         for cid in ALL:
